@@ -476,6 +476,17 @@ func shrink(d *Decl, v verdict) (*Decl, verdict) {
 			for _, ch := range d.E.Children() {
 				cand = append(cand, &Decl{E: ch})
 			}
+			// typed op untyped: the untyped operand is converted to the type
+			// of the other one first; try that conversion on its own
+			if e := d.E; e.K == "bin" && e.Op != "<<" && e.Op != ">>" && !e.HasRef() {
+				tx, ty := goType(e.X), goType(e.Y)
+				if isFloatType(tx) && strings.HasPrefix(ty, "untyped ") {
+					cand = append(cand, &Decl{E: &Expr{K: "conv", Kind: tx, X: e.Y}})
+				}
+				if isFloatType(ty) && strings.HasPrefix(tx, "untyped ") {
+					cand = append(cand, &Decl{E: &Expr{K: "conv", Kind: ty, X: e.X}})
+				}
+			}
 		}
 		found := false
 		for _, cd := range cand {
@@ -534,8 +545,6 @@ func signature(d *Decl, v verdict) string {
 		case v.kind == "fault" && hasComplex(e):
 			// the complex operations ignore the errors of the operations on the parts
 			return "complex-overflow-fault"
-		case v.kind == "type" && isShift && (goClass(e.X) == "uf" || goClass(e.X) == "uc"):
-			return "shift-result-kind"
 		case v.kind == "rejects:invalidop" && isShift && (goClass(e.Y) == "tf" || goClass(e.Y) == "tc"):
 			// go/types accepts a typed float constant count, the spec and Scriggo do not
 			return "shift-count-typed-float"
@@ -545,7 +554,7 @@ func signature(d *Decl, v verdict) string {
 		if v.near {
 			return "float-rounding-visible"
 		}
-		if v.kind == "value" && e.K == "conv" && (strings.HasPrefix(e.Kind, "float") || strings.HasPrefix(e.Kind, "complex")) && (goClass(e.X) == "uf" || goClass(e.X) == "uc") {
+		if v.kind == "value" && e.K == "conv" && isFloatType(e.Kind) && ratDoubleRounding(e) {
 			// a rational that is not a float64 is rounded to 512 bits first, then to the float type
 			return "rat-float-double-rounding"
 		}
@@ -556,7 +565,7 @@ func signature(d *Decl, v verdict) string {
 			if w := compare((&Decl{E: e}).Program()); w.kind == "" && w.soft {
 				return "float-rounding-visible"
 			}
-			if v.kind == "value" && (strings.HasPrefix(d.T, "float") || strings.HasPrefix(d.T, "complex")) && (goClass(e) == "uf" || goClass(e) == "uc") {
+			if v.kind == "value" && isFloatType(d.T) && ratDoubleRounding(&Expr{K: "conv", Kind: d.T, X: e}) {
 				return "rat-float-double-rounding"
 			}
 		}
@@ -776,6 +785,11 @@ func replayDecl(c *Ctx, decl string) {
 	c.Count("evaluations")
 	prog := "package main\n\n" + decl + "\n\nfunc main() { }\n"
 	v := compare(prog)
+	if d, ok := parseDecl(decl); ok && v.kind != "" && v.kind != "generator" {
+		// same attribution as for a generated declaration
+		report(c, d, v)
+		return
+	}
 	if v.kind != "" && v.kind != "generator" {
 		v.det["decl"] = decl
 		c.Fail(v.kind+"/corpus", v.det)
@@ -862,4 +876,100 @@ func oracleDefect(d *Decl, v verdict) bool {
 		return false
 	}
 	return a.Re.Cmp(new(big.Rat).SetInt64(math.MinInt64)) == 0 && b.Re.Cmp(new(big.Rat).SetInt64(-1)) == 0
+}
+
+func goType(e *Expr) string {
+	if e.HasRef() {
+		return "?"
+	}
+	g := goEval((&Decl{E: e}).Program())
+	if g.Err != "" {
+		return "?"
+	}
+	return g.Type
+}
+
+func isFloatType(t string) bool {
+	return t == "float32" || t == "float64" || t == "complex64" || t == "complex128"
+}
+
+// descParts returns the descriptions of the real and imaginary part of a number constant.
+func descParts(desc string) []string {
+	if strings.HasPrefix(desc, "Cplx:") {
+		if p := splitCplx(desc[5:]); p != nil {
+			return p
+		}
+		return nil
+	}
+	return []string{desc, "I64:0"}
+}
+
+// ratDoubleRounding decides, by recomputation, whether the value difference of
+// the conversion e = T(U) to a float or complex type is exactly the recorded
+// finding: U is held exactly by Scriggo (same value as go/constant), Go's
+// result is U rounded once to the float type, and Scriggo's result is what
+// rounding a ratConst part that is not a float64 to 512 bits first and then
+// to the float type gives (every other part rounded once).
+func ratDoubleRounding(e *Expr) bool {
+	if e.X.HasRef() {
+		return false
+	}
+	up := (&Decl{E: e.X}).Program()
+	u, gu := scEval(up), goEval(up)
+	rp := (&Decl{E: e}).Program()
+	r, gr := scEval(rp), goEval(rp)
+	if u.Err != "" || gu.Err != "" || r.Err != "" || gr.Err != "" || !u.IsNum || !r.IsNum || gu.Re == nil || gr.Re == nil {
+		return false
+	}
+	zero := new(big.Rat)
+	or0 := func(x *big.Rat) *big.Rat {
+		if x == nil {
+			return zero
+		}
+		return x
+	}
+	if u.Re.Cmp(gu.Re) != 0 || or0(u.Im).Cmp(or0(gu.Im)) != 0 {
+		return false // the operand itself differs
+	}
+	is32 := e.Kind == "float32" || e.Kind == "complex64"
+	once := func(q *big.Rat) *big.Rat {
+		if is32 {
+			f, _ := q.Float32()
+			return new(big.Rat).SetFloat64(float64(f))
+		}
+		f, _ := q.Float64()
+		return new(big.Rat).SetFloat64(f)
+	}
+	twice := func(q *big.Rat) *big.Rat {
+		b := new(big.Float).SetPrec(512).SetRat(q)
+		if is32 {
+			f, _ := b.Float32()
+			return new(big.Rat).SetFloat64(float64(f))
+		}
+		f, _ := b.Float64()
+		return new(big.Rat).SetFloat64(f)
+	}
+	parts := descParts(u.Desc)
+	if parts == nil {
+		return false
+	}
+	vals := []*big.Rat{u.Re, or0(u.Im)}
+	got := []*big.Rat{r.Re, or0(r.Im)}
+	want := []*big.Rat{gr.Re, or0(gr.Im)}
+	differs := false
+	for i := 0; i < 2; i++ {
+		exp := once(vals[i])
+		if strings.HasPrefix(parts[i], "Rat:") {
+			if _, exact := vals[i].Float64(); !exact {
+				exp = twice(vals[i])
+			}
+		}
+		if exp == nil || got[i].Cmp(exp) != 0 || want[i].Cmp(once(vals[i])) != 0 {
+			return false
+		}
+		if got[i].Cmp(want[i]) != 0 {
+			differs = true
+		}
+	}
+	return differs
 }
